@@ -25,6 +25,10 @@ MAX_DEPTH = 14
 MAX_UNROLL = 64
 
 
+ALL_EVALUATORS = []     # every evaluator created in this process (one process per check): their `touched` sets are the
+                        # functions the property's rules actually entered
+
+
 class Raised(Exception):
     """A definite `raise` on the current (decided) path."""
     def __init__(self, exc_name, node=None, msg=None, origin=None):
@@ -96,6 +100,7 @@ class Evaluator:
         self.dim_checks = 0
         self.calls_inlined = 0
         self.touched = set()
+        ALL_EVALUATORS.append(self)
         self.signal_slices = []  # (function, node, index value, path facts) for every signal-level subscript in library code
         self.guard_log = []      # (function, test, exception, where) for every arm that raised under an undecided test
         from . import extapi
